@@ -733,7 +733,7 @@ Proof.
         intros [k c] Hc st' e' ch' E' O'. eapply Hc; eauto. }
       destruct (wrap cls id (Err e1 ch1)) as [? ? | e2 ch2] eqn:W.
       * apply wrap_ok in W. discriminate.
-      * inversion E; subst. eapply wrap_perr; eauto.
+      * inversion E; subst. exact (wrap_perr cls id (Err e1 ch1) e ch e1 ch1 eq_refl P1 W).
 Qed.
 
 Lemma rejection_is_parse_error_l : forall b ps st e ch,
@@ -744,4 +744,171 @@ Proof.
   destruct (exec b p st) as [n st1 | e1 ch1] eqn:Ep.
   - eapply IH; eauto.
   - inversion E; subst. destruct (exec_perr b p false st e ch Ep) as [P | (X & _)]; auto. discriminate.
+Qed.
+
+(* ------------------------------------------------------------------------ expand_plates *)
+
+Lemma plate_free_arr l : plate_free (JArr l) <-> Forall plate_free l.
+Proof.
+  simpl. induction l as [| x r IH]; split; intros H; auto.
+  - destruct H. constructor; auto. apply IH; auto.
+  - inversion H; subst. split; auto. apply IH; auto.
+Qed.
+
+Lemma plate_free_obj kv :
+  plate_free (JObj kv) <-> plate_of kv = NotPlate /\ Forall (fun p => plate_free (snd p)) kv.
+Proof.
+  simpl. split; intros [A B]; split; auto; clear A.
+  - induction kv as [| [k v] r IH]; auto. destruct B. constructor; auto.
+  - induction kv as [| [k v] r IH]; auto. inversion B; subst. split; [assumption | apply IH; assumption].
+Qed.
+
+Lemma jsize_arr l : jsize (JArr l) = S (list_sum (map jsize l)).
+Proof. simpl. f_equal. induction l as [| x r IH]; simpl; auto. Qed.
+
+Lemma jsize_obj kv : jsize (JObj kv) = S (list_sum (map (fun p => jsize (snd p)) kv)).
+Proof. simpl. f_equal. induction kv as [| [k v] r IH]; simpl; auto. Qed.
+
+Lemma jsize_pos j : 1 <= jsize j.
+Proof. destruct j; simpl; lia. Qed.
+
+Lemma sum_bounds {A} (f : A -> nat) (l : list A) :
+  (forall x, 1 <= f x) -> List.length l <= list_sum (map f l) /\ forall x, In x l -> f x <= list_sum (map f l).
+Proof.
+  intros P. induction l as [| y r [IH1 IH2]]; simpl; split; try lia; try tauto.
+  - specialize (P y). lia.
+  - intros x [E | I]; [subst; lia | specialize (IH2 x I); lia].
+Qed.
+
+Lemma expand_loop_id ex : forall rest n pre,
+  Forall (fun x => ex x = inl x /\ plate_free x) rest -> List.length rest < n ->
+  expand_loop ex n pre rest = inl (JArr (rev pre ++ rest)).
+Proof.
+  induction rest as [| x tl IH]; intros n pre F L; destruct n as [| n']; simpl in L; try lia; simpl.
+  - rewrite app_nil_r. reflexivity.
+  - inversion F as [| ? ? [Ex Px] F']; subst.
+    assert (match x with JObj kv => plate_of kv | _ => NotPlate end = NotPlate) as NP.
+    { destruct x; auto. apply plate_free_obj in Px. tauto. }
+    rewrite NP, Ex. rewrite IH; auto; try lia. simpl. rewrite <- app_assoc. reflexivity.
+Qed.
+
+Lemma expand_fields_id ex kv :
+  Forall (fun p => ex (snd p) = inl (snd p)) kv -> expand_fields ex kv = inl kv.
+Proof.
+  induction 1 as [| [k v] r Hv Hr IH]; simpl; auto. simpl in Hv. rewrite Hv, IH. reflexivity.
+Qed.
+
+(* a specification without plates is left alone *)
+Lemma expand_plate_free_l : forall fuel j, plate_free j -> jsize j <= fuel -> expand fuel j = inl j.
+Proof.
+  induction fuel as [| f IH]; intros j PF SZ.
+  - pose proof (jsize_pos j). lia.
+  - destruct j as [| | | | | l | kv]; try reflexivity.
+    + rewrite jsize_arr in SZ. apply plate_free_arr in PF.
+      destruct (sum_bounds jsize l jsize_pos) as [B1 B2].
+      change (expand_loop (expand f) (S f) [] l = inl (JArr l)).
+      rewrite expand_loop_id; auto; try lia.
+      apply Forall_forall. intros x I. rewrite Forall_forall in PF. split; auto.
+      apply IH; auto. specialize (B2 x I). lia.
+    + rewrite jsize_obj in SZ. apply plate_free_obj in PF. destruct PF as [NP PF].
+      destruct (sum_bounds (fun p : string * json => jsize (snd p)) kv (fun p => jsize_pos (snd p))) as [B1 B2].
+      simpl. rewrite NP. rewrite expand_fields_id; auto.
+      apply Forall_forall. intros p I. rewrite Forall_forall in PF.
+      apply IH; auto. specialize (B2 p I). simpl in B2. lia.
+Qed.
+
+(* a plate that is the element of a list is replaced, in place, by its clones *)
+Lemma expand_single_plate_l : forall f kv clones,
+  plate_of kv = PlateRange clones -> Forall plate_free clones -> list_sum (map jsize clones) <= f ->
+  expand (S f) (JArr [JObj kv]) = inl (JArr clones).
+Proof.
+  intros f kv clones P PF SZ.
+  change (expand_loop (expand f) (S f) [] [JObj kv] = inl (JArr clones)).
+  simpl. rewrite P. rewrite app_nil_r.
+  destruct clones as [| y tl]; [reflexivity |].
+  destruct (sum_bounds jsize (y :: tl) jsize_pos) as [B1 B2]. simpl in B1.
+  rewrite expand_loop_id; auto; [| simpl in SZ; lia].
+  inversion PF; subst. apply Forall_forall. intros x I. rewrite Forall_forall in H2. split; auto.
+  apply expand_plate_free_l; auto. specialize (B2 x (or_intror I)). lia.
+Qed.
+
+(* ------------------------------------------------------------------ at the level of main *)
+
+Lemma load_spec schema b fuel data ps :
+  spec_of schema fuel data = Some ps -> load schema b fuel data = exec_all b ps st0.
+Proof.
+  unfold spec_of, load. destruct (expand fuel (rc data)); intros E; inversion E; subst. reflexivity.
+Qed.
+
+Lemma load_ok_spec schema b fuel data st :
+  load schema b fuel data = Ok tt st -> exists ps, spec_of schema fuel data = Some ps.
+Proof.
+  unfold spec_of, load. destruct (expand fuel (rc data)); intros E; [eauto | discriminate].
+Qed.
+
+Lemma C13_refs_l : forall schema fuel data ps st,
+  spec_of schema fuel data = Some ps -> load schema true fuel data = Ok tt st ->
+  let R := fun s => lookup s (st_reg st) in
+  let H := fun n => hget n (st_heap st) in
+  Forall (explained R H) ps /\ (forall a b n, R a = Some n -> R b = Some n -> a = b).
+Proof. intros schema fuel data ps st S L. rewrite (load_spec _ _ _ _ _ S) in L. apply refs_share_identity_l; auto. Qed.
+
+Lemma C13_update_l : forall schema fuel data ps st,
+  spec_of schema fuel data = Some ps -> load schema true fuel data = Ok tt st ->
+  forall h cls body k c s n,
+    Exists (occurs h cls body) ps -> pget k body = Some c -> mention c = Some s ->
+    lookup s (st_reg st) = Some n ->
+    forall (V : Type) (sigma : nat -> option V) (v : V),
+      sees st (upd sigma n v) h k = Some v /\
+      (forall h' cls' body' k' c' s', Exists (occurs h' cls' body') ps -> pget k' body' = Some c' ->
+         mention c' = Some s' -> s' <> s -> sees st (upd sigma n v) h' k' = sees st sigma h' k').
+Proof.
+  intros schema fuel data ps st S L h cls body k c s n O P M Ls V sigma v.
+  rewrite (load_spec _ _ _ _ _ S) in L. split.
+  - eapply update_seen_l; eauto.
+  - intros. eapply update_frame_l; eauto.
+Qed.
+
+Lemma C13_dangling_l : forall schema recheck fuel data ps,
+  spec_of schema fuel data = Some ps -> ~ scoped_all [] ps ->
+  exists e ch, load schema recheck fuel data = Err e ch /\
+               (Forall (only_parse false) ps -> parse_error e = true).
+Proof.
+  intros schema b fuel data ps S H. rewrite (load_spec _ b _ _ _ S).
+  destruct (dangling_rejected_l b ps H) as (e & ch & E). exists e, ch. split; auto.
+  intros OP. eapply rejection_is_parse_error_l; eauto.
+Qed.
+
+Lemma C13_duplicate_l : forall schema fuel data ps,
+  spec_of schema fuel data = Some ps -> ~ NoDup (defs_all ps) ->
+  exists e ch, load schema true fuel data = Err e ch /\
+               (Forall (only_parse false) ps -> parse_error e = true).
+Proof.
+  intros schema fuel data ps S H. rewrite (load_spec _ true _ _ _ S).
+  destruct (duplicate_rejected_l ps H) as (e & ch & E). exists e, ch. split; auto.
+  intros OP. eapply rejection_is_parse_error_l; eauto.
+Qed.
+
+Lemma C13_duplicate_current_l : forall schema fuel data ps,
+  spec_of schema fuel data = Some ps -> Forall nested_free ps -> ~ NoDup (defs_all ps) ->
+  exists e ch, load schema false fuel data = Err e ch.
+Proof.
+  intros schema fuel data ps S NF H. rewrite (load_spec _ false _ _ _ S).
+  apply duplicate_rejected_unless_nested_l; auto.
+Qed.
+
+Lemma C13_accepts_iff_l : forall schema fuel data ps,
+  spec_of schema fuel data = Some ps ->
+  ((exists st, load schema true fuel data = Ok tt st) <-> (scoped_all [] ps /\ NoDup (defs_all ps))).
+Proof.
+  intros schema fuel data ps S. rewrite (load_spec _ true _ _ _ S). split.
+  - intros [st E]. destruct (accepted_wellformed_l true ps st E); auto.
+  - intros [A B]. apply wellformed_accepted_l; auto.
+Qed.
+
+Lemma C13_recheck_l : forall schema fuel data st,
+  load schema true fuel data = Ok tt st -> load schema false fuel data = Ok tt st.
+Proof.
+  intros schema fuel data st. unfold load. destruct (expand fuel (rc data)); auto.
+  apply recheck_only_rejects_all_l.
 Qed.
